@@ -306,6 +306,11 @@ Definition check_api (c : api_case) : list string :=
       let inputs := List.map (fun ap => resolved_of (fst ap) (snd ap)) archs in
       tag_if (negb (forallb (fun o => existsb (fun m => match m with Some mo => uobs_eqb mo o | None => false end) models) (e_lock_runs c)))
              "mismatch:lock-image-configuration" ++
+      (* one call, one result (c09_shared_lock_sorted_order_deterministic): the repeated runs agree *)
+      tag_if (match e_lock_runs c with
+              | o :: more => negb (forallb (uobs_eqb o) more)
+              | [] => false
+              end) "viol:lock-image-configuration-varies-between-identical-calls" ++
       match find (fun o => match o with UOk _ _ => true | _ => false end) (e_lock_runs c) with
       | Some (UOk bya mba as o) =>
           (if clean_originals_b (e_originals c) then judge_unify (e_originals c) inputs o else []) ++
